@@ -16,7 +16,7 @@ type TreeOpts struct {
 }
 
 var hostileJSON = []string{"\\", "\"", "\\\"", "\\n", "\n", "\r", "\t", "\x00", "\x01", "\x08", "\x0b", "\x0c", "\x1f", "\x7f", "\u2028", "\u2029", "\ud7ff", "\ue000", "\ufffd", "\U0001F600", "\U0001D11E", "\u00e9", "\u65e5\u672c", "</script>", "\\u0041", "{", "}", "[", "]", ":", ",", "'", " ", "  ", "/", "\u0085", "\u00a0"}
-var hostileXML = []string{"<", ">", "&", "'", "\"", "]]>", "<!--", "-->", "<![CDATA[", "&amp;", "&#65;", "&lt;", "<b>", "</entry>", "</td>", "=", " ", "  ", "\t", "\n", "\r", "\r\n", "x=\"1\"", "/>", "?>", "<?xml", "é", "日本", "😀", " ", "a b", ":", "-", ".", "1", "xml", " ", "\u0085"}
+var hostileXML = []string{"<", ">", "&", "'", "\"", "]]>", "<!--", "-->", "<![CDATA[", "&amp;", "&#65;", "&lt;", "&#60;b&#62;", "&#x3C;", "&foo;", "&nbsp;", "&;", "&#;", "&amp;lt;", "<b>", "</entry>", "</td>", "=", " ", "  ", "\t", "\n", "\r", "\r\n", "x=\"1\"", "/>", "?>", "<?xml", "é", "日本", "😀", " ", "a b", ":", "-", ".", "1", "xml", " ", "\u0085"}
 
 // RandString builds a string from plain and hostile pieces.
 func RandString(r *rand.Rand, o TreeOpts) string {
@@ -124,7 +124,8 @@ func RandTree(r *rand.Rand, o TreeOpts, d int) ref.Value {
 		for i := 0; i < n; i++ {
 			key := RandString(r, o)
 			if r.IntN(3) == 0 {
-				key = []string{"a", "b", "key", "k1", "x-y", "_z", "A.b"}[r.IntN(7)]
+				// incl. names made of letters only some of which are XML name characters, names with digits, colons, dots
+				key = []string{"a", "b", "key", "k1", "x-y", "_z", "A.b", "µF", "ªb", "ºx", "Größe", "température", "日本", "ǅ", "ⅷ", "a·b", "k:1", "1a", "-a", ".a", "a.", "x_1", "ſt", "ʰ", "a\u0300"}[r.IntN(25)]
 			}
 			if _, dup := m.Get(key); dup {
 				continue
